@@ -78,7 +78,9 @@ AlphaStructA ==
 (* with padding, comments, a second identifier and a chunked string        *)
 AlphaStructB ==
   AlphaStructA \o << EvPad, EvCmt, [EvCmt EXCEPT !.pok = FALSE], EvRT("b"), EvRec("b"), EvVer(1),
-                     EvABegin("string"), EvChunk(1, FALSE), EvData(<<98>>) >>
+                     EvABegin("string"), EvChunk(1, FALSE), EvData(<<98>>),
+                     (* arrays that are no keys, begun where a key is due *)
+                     EvABegin("au8"), EvMBegin >>
 
 (* C13: markers and references *)
 AlphaMarker ==
@@ -100,7 +102,7 @@ AlphaAll ==
      [EvCmt EXCEPT !.pok = FALSE], [EvCmt EXCEPT !.multi = TRUE, !.pok = FALSE], EvNull,
      EvBool("OnTrue", "true"), EvBool("OnFalse", "false"), EvBool("OnBoolean", "true"),
      EvInt("pint", "1"), EvInt("nint", "-1"), EvInt("int", "-1"),
-     EvInt("bigint", "1180591620717411303424"), EvInt("bigint", "-7"), EvNilBig,
+     EvInt("bigint", "1180591620717411303424"), EvInt("bigint", "-7"), EvInt("bigint", "-1180591620717411303424"), EvNilBig,
      EvFloat("f64:3ff8000000000000"), EvFloat("f64:8000000000000000"), EvFloat("f64:7ff0000000000000"),
      EvFloatNan, EvSp("OnFloat", "float", "snan"),
      EvK("OnBigFloat", "float", "bf:0x.cp+1:53"), EvSp("OnBigFloat", "float", "nil"),
@@ -123,7 +125,7 @@ AlphaAll ==
      [EvCTxt(<<97>>) EXCEPT !.ct = 8],
      EvABegin("au8"), EvABegin("string"), [EvMBegin EXCEPT !.mt = "a/b"],
      [EvCBegin("cbin") EXCEPT !.ct = 9], [EvCBegin("ctxt") EXCEPT !.ct = 10],
-     EvChunk(2, FALSE), EvChunk(1, TRUE), EvData(<<97, 98>>), EvData(<<99>>) >>
+     EvChunk(2, FALSE), EvChunk(1, TRUE), EvData(<<97, 98>>), EvData(<<99>>), EvData(<<>>) >>
 
 (* C12: keys in every form, inside maps and record types.  Integer values   *)
 (* sit on the comparisons of NotifyKey (0, sign, int64/uint64 range ends). *)
@@ -155,6 +157,7 @@ AlphaKeysWide ==
   << EvBD, EvVer(0), EvED, EvMap, EvEnd, EvRT("a"), EvNull, EvInt("pint", "5"),
      EvInt("bigint", "340282366920938463463374607431768211456"),
      EvInt("bigint", "-340282366920938463463374607431768211456"),
+     EvInt("bigint", "680564733841876926926749214863536422912"), EvInt("bigint", "340282366920938463463374607431768211461"),
      EvInt("bigint", "6277101735386680763835789423207666416102355444464034512896"),
      EvInt("bigint", "-6277101735386680763835789423207666416102355444464034512896"),
      EvInt("bigint", "6277101735386680763835789423207666416102355444464034512897"),
@@ -218,7 +221,7 @@ AlphaArrWhole ==
      EvArr("cbin", 1, <<1>>), EvArr("media", 1, <<1>>), EvSArr("ctxt", <<97>>) >>
 (* C14: limits.  Run with small limits so that usage crosses them. *)
 AlphaLimits ==
-  << EvBD, EvVer(0), EvED, EvNull, EvInt("pint", "1"), EvList, EvMap, EvNode, EvEdge, EvEnd,
+  << EvBD, EvVer(0), EvED, EvNull, EvInt("pint", "1"), EvFloatNan, EvList, EvMap, EvNode, EvEdge, EvEnd,
      EvIdX("OnRecordType", "a", 1, TRUE), EvIdX("OnRecord", "a", 1, TRUE),
      EvIdX("OnRecordType", "bb", 2, TRUE), EvIdX("OnRecordType", "ccc", 3, TRUE),
      EvIdX("OnMarker", "a", 1, TRUE), EvIdX("OnReferenceLocal", "a", 1, TRUE),
